@@ -26,7 +26,7 @@ m = {
     "setup_cmd": "./vf setup",
     "hooks": {
         "guard": "verif",
-        "enable": "no hook is committed to /repo: harness test files, the shared generator packages and (C06/C09) AST-rewritten copies of single repo files are injected at check time with `go test -overlay` + `-modfile` (see DESIGN.md 2.1); the build tag `verif` is nominal and guards no file",
+        "enable": "no hook is committed to /repo: harness test files, the shared generator packages and AST-rewritten copies of single repo files (gsfa writer constants for C06/poll interval, instrumented epoch-set mutex for C09, capacity hint of the sig-exists writer for the package-main units; listed per unit in vf_units.py and in the transform report of each evidence file) are injected at check time with `go test -overlay` + `-modfile` (see DESIGN.md 2.1); the build tag `verif` is nominal and guards no file",
         "baseline_off_cmd": BASE,
         "source_commits": [],
         "add_only": True,
